@@ -382,13 +382,14 @@ def specCell (pix cells : Nat) : Nat := if cells = 0 then 1 else max 1 (pix / ce
 
 /-- The model of `Kitty/Sixel.Resize` for a signed box at the terminal's cell geometry:
     (pixel size of the resized image, cell size, cell geometry). -/
-def resizeModel (s : Nat × Nat × Nat × Nat) (wPix hPix : Nat) (w h : Int) : Except Panic ((Nat × Nat) × (Nat × Nat) × (Nat × Nat) × Bool) := do
+def resizeModel (rs : VaxisModel.Gen.ImageConsts.ResizeShape) (s : Nat × Nat × Nat × Nat) (wPix hPix : Nat) (w h : Int) : Except Panic ((Nat × Nat) × (Nat × Nat) × (Nat × Nat) × Bool) := do
   let gw := ImageTerm.termCellW s.1 s.2.1
   let gh := ImageTerm.termCellH s.2.2.1 s.2.2.2
   let (pw, ph) ← ImageTerm.resizeDimsBox floatOps wPix hPix w h gw gh
   let raw ← ImageTerm.resizeRawBox floatOps wPix hPix w h gw gh
-  let cw ← cellsUp pw gw
-  let chh ← cellsUp ph gh
+  -- the cell-size arithmetic of this `Resize` method as regenerated from the source
+  let cw ← ImageTerm.resizeCells rs rs.quotW rs.roundUpW pw gw
+  let chh ← ImageTerm.resizeCells rs rs.quotH rs.roundUpH ph gh
   -- the rectangle `image.Rect(0, 0, nw, nh)` has no pixels iff an extent is 0 (a negative extent is mirrored)
   return ((pw, ph), (cw, chh), (gw, gh), raw.1 = 0 ∨ raw.2 = 0)
 
@@ -452,7 +453,7 @@ def kstep (s : St) (op : List String) (impl : String) : St × String :=
       | none => (s, bad)
       | some (_, k) =>
         let (mcanon, k1) : String × KImg :=
-          match resizeModel (s.xpix, s.cols, s.ypix, s.rows) k.wPix k.hPix w h with
+          match resizeModel VaxisModel.Gen.ImageConsts.sixelResize (s.xpix, s.cols, s.ypix, s.rows) k.wPix k.hPix w h with
           | .ok ((pw, ph), (cw, chh), (gw, gh), noPixels) =>
             if noPixels then (s!"{cw} {chh} px={pw}x{ph} cell={gw}x{gh} empty", { k with mw := cw, mh := chh, hasData := false })
             else (s!"{cw} {chh} px={pw}x{ph} cell={gw}x{gh}", { k with mw := cw, mh := chh, hasData := true })
@@ -485,7 +486,7 @@ def kstep (s : St) (op : List String) (impl : String) : St × String :=
       | none => (s, bad)
       | some (_, k) =>
         let (mcanon, k1) : String × KImg :=
-          match resizeModel (s.xpix, s.cols, s.ypix, s.rows) k.wPix k.hPix w h with
+          match resizeModel VaxisModel.Gen.ImageConsts.kittyResize (s.xpix, s.cols, s.ypix, s.rows) k.wPix k.hPix w h with
           | .ok ((pw, ph), (cw, chh), (gw, gh), noPixels) =>
             if noPixels then (s!"{cw} {chh} px={pw}x{ph} cell={gw}x{gh} noencode", { k with mw := cw, mh := chh })
             else (s!"{cw} {chh} px={pw}x{ph} cell={gw}x{gh}", { k with mw := cw, mh := chh, uploaded := false, pending := k.pending + 1 })
